@@ -207,6 +207,8 @@ def run_pipeline(case, tape):
                   'ntheta_even' if npts[1] % 2 == 0 else 'ntheta_odd': 1}
         if case.get('twice'):
             probes['solver_reused'] = 1
+        if case.get('other_solver_first'):
+            probes['other_solver_built_first'] = 1
         if case.get('B') not in (None, 1.0):
             probes['B_not_one'] = 1
         if (ckw.get('splineDegrees') or [3])[0] != 3:
